@@ -1,5 +1,6 @@
 from checks.inteval import run_inteval
 from checks.approxeval import run_approxeval
+from checks.c13 import run_polyeval
 
 
 def run(ctx):
@@ -7,5 +8,13 @@ def run(ctx):
         "frame condition compared through MarshalBinary snapshots of every register and value copies of scalar/slice/plaintext operands",
         "scratch buffers of the evaluator are overwritten with garbage before every call (history independence)",
     ]
-    run_inteval(ctx, frame=True)
-    run_approxeval(ctx, frame=True)
+    fam = None
+    if ctx.replay:
+        import json
+        fam = json.load(open(ctx.replay)).get('family')
+    if fam in (None, 'inteval'):
+        run_inteval(ctx, frame=True)
+    if fam in (None, 'approxeval'):
+        run_approxeval(ctx, frame=True)
+    if fam in (None, 'polyeval'):
+        run_polyeval(ctx, frame=True)
